@@ -2,6 +2,36 @@ use crate::variables::Primitive::*;
 use crate::*;
 use anyhow::{bail, Context, Result};
 
+/// `checked_shl` only refuses a shift amount that is too large. A left shift that drops set bits
+/// or changes the sign has overflowed as well: shifting the result back must give the operand.
+trait ExactShift: Sized {
+    fn exact_shl(self, amount: u32) -> Option<Self>;
+    fn exact_shr(self, amount: u32) -> Option<Self>;
+}
+
+macro_rules! exact_shift {
+    ($($ty:ty),+) => {
+        $(
+            impl ExactShift for $ty {
+                fn exact_shl(self, amount: u32) -> Option<Self> {
+                    let shifted = self.checked_shl(amount)?;
+                    if shifted.checked_shr(amount) == Some(self) {
+                        Some(shifted)
+                    } else {
+                        None
+                    }
+                }
+
+                fn exact_shr(self, amount: u32) -> Option<Self> {
+                    self.checked_shr(amount)
+                }
+            }
+        )+
+    };
+}
+
+exact_shift!(i32, i128, u8);
+
 macro_rules! generic_bitop {
     (@tests $name:ident $symbol:tt) => {
         #[cfg(test)]
@@ -108,5 +138,5 @@ macro_rules! generic_bitop {
 generic_bitop!(BitAnd::bitand, &);
 generic_bitop!(BitOr::bitor, |);
 generic_bitop!(BitXor::bitxor, ^);
-generic_bitop!(@checked Shl::shl, <<, safe=checked_shl);
-generic_bitop!(@checked Shr::shr, >>, safe=checked_shr);
+generic_bitop!(@checked Shl::shl, <<, safe=exact_shl);
+generic_bitop!(@checked Shr::shr, >>, safe=exact_shr);
